@@ -149,6 +149,23 @@ theorem C10_forwarder_chain_partial (S : Schema) (idN idW : Nat) (hf : (S.msg id
       specUnmarshal S idW (specEnc S idN v) mW = specUnmarshal S idW b mW :=
   forwarder_chain S idN idW hf hc n b rs hr slots mW
 
+/-- the forwarder's re-marshalled bytes are a fixed point: decoding them again into a fresh forwarder
+message gives the same message, so any number of forwarding hops leaves the bytes and the receiver's
+result unchanged after the first -/
+theorem C10_forwarder_remarshal_fixpoint (S : Schema) (idN : Nat) (hf : (S.msg idN).fields = [])
+    (hc : (S.msg idN).capture = true) (n : Nat) (b : Bytes) (rs : List Record) (hr : records n b = some rs)
+    (slots : List Val) :
+    ∃ v, specUnmarshal S idN b (.msg slots []) = some v ∧
+      specUnmarshal S idN (specEnc S idN v) (.msg slots []) = some v := by
+  have hall : ∀ r ∈ rs, findField (S.msg idN).fields r.num = none := fun r _ => by rw [hf]; rfl
+  have h1 := capture_exact S idN hc n b rs slots [] hr hall
+  refine ⟨_, h1, ?_⟩
+  have hout : specEnc S idN (.msg slots ([] ++ (rs.map fun r => Wire.tag r.num r.wire ++ r.raw).flatten))
+      = (rs.map fun r => Wire.tag r.num r.wire ++ r.raw).flatten := by
+    simp [specEnc, hc, hf, encSlots, sortChunks]
+  rw [hout]
+  exact capture_exact S idN hc _ _ rs slots [] (records_retag rs (selfParsing_of_records n b rs hr)) hall
+
 /-- MACHINE LEVEL of the same chain: the real decoder on the sender's bytes into a fresh forwarder
 message reports no error; the real decoder of the receiver run on the real Marshal of that message
 gives the same verdict and the same value as on the sender's bytes -/
